@@ -114,7 +114,8 @@ class CodemodRegistry:
                 matched_codemods.append(self._codemods_by_id[name])
             except KeyError:
                 logger.warning(f"Requested codemod to include '{name}' does not exist.")
-        return matched_codemods
+        # Overlapping patterns select a codemod once: remove duplicates, preserve order
+        return list(dict.fromkeys(matched_codemods))
 
     def describe_codemods(
         self,
